@@ -226,6 +226,30 @@ func checkC14(e *env) {
 	}
 	sort.Strings(names)
 	r.Notes = append(r.Notes, "accepted built-in sets: "+strings.Join(names, ", "))
+	// "in which case the pixel size used for tile matrix z equals its cell size divided by 16": the index's pixel of every id of every accepted set
+	for _, name := range names {
+		t, _ := tms20.LoadEmbeddedTileMatrixSet(name)
+		levelDiff := uint(math.Log2(float64(t.TileMatrices[0].TileWidth))) + 4
+		if uint(1)<<levelDiff != t.TileMatrices[0].TileWidth*16 {
+			r.violation(Violation{Oracle: "4096-units-per-256-pixel-tile", Op: name, Detail: fmt.Sprintf("tile width %d, level offset %d", t.TileMatrices[0].TileWidth, levelDiff)})
+		}
+		for id, tm := range t.TileMatrices {
+			if uint(id)+levelDiff > 32 {
+				continue
+			}
+			ix, err := pointindex.FromTileMatrixSet(t, id)
+			if err != nil {
+				r.violation(Violation{Oracle: "index-for-accepted-set", Op: fmt.Sprintf("%s id %d", name, id), Detail: err.Error()})
+				continue
+			}
+			g := gridOf(ix)
+			r.count("pixel-size", fmt.Sprintf("pixel-size %s id %d", name, id), true)
+			got, want := float64(g.res)/1e10, tm.CellSize/16
+			if g.depth != uint(id)+levelDiff || math.Abs(got-want) > 1e-6*want {
+				r.violation(Violation{Oracle: "pixel=cellSize/16", Op: fmt.Sprintf("%s id %d", name, id), Impl: fmt.Sprintf("pixel %v on level %d", got, g.depth), Detail: fmt.Sprintf("cell size %v / 16 = %v (relative difference %.2e)", tm.CellSize, want, math.Abs(got-want)/want)})
+			}
+		}
+	}
 	// the tool itself: an error, never a panic, for every built-in set (validation runs before the source is opened)
 	bin := texelBin()
 	for _, name := range builtinNames {
